@@ -35,7 +35,8 @@ ASSUMPTIONS = [
 MENU = ["none", "go-x", "go-elapsed", "go-recurred", "timeout", "repeat", "inc-recur", "put-enter", "go-cnt", "aux", "bid-stop", "copy-exit", "go-x-and-cnt"]
 
 
-def draw(sym, n, parent, items_per_frame, guards, item0=None):
+def draw(sym, n, parent, items_per_frame, guards, item0=None, menu=None):
+    MENU_ = menu or MENU
     first = sym.choice("first", n)
     frames = []
     shares = ["x"]
@@ -44,7 +45,7 @@ def draw(sym, n, parent, items_per_frame, guards, item0=None):
     for i in range(n):
         items = [("rec", "precur")]
         for j in range(items_per_frame):
-            m = MENU[item0] if (item0 is not None and i == 0 and j == 0) else MENU[sym.choice("item%d_%d" % (i, j), len(MENU))]
+            m = MENU[item0] if (item0 is not None and i == 0 and j == 0) else MENU_[sym.choice("item%d_%d" % (i, j), len(MENU_))]
             far = "f%d" % sym.choice("far%d_%d" % (i, j), n) if m.startswith("go") else None
             if m == "go-x":
                 items.append(("go", far, [("x", ">=", 1)]))
@@ -86,8 +87,8 @@ def draw(sym, n, parent, items_per_frame, guards, item0=None):
     return prog
 
 
-def h(sym, n, parent, items_per_frame, guards, ticks, item0=None):
-    prog = draw(sym, n, parent, items_per_frame, guards, item0)
+def h(sym, n, parent, items_per_frame, guards, ticks, item0=None, menu=None):
+    prog = draw(sym, n, parent, items_per_frame, guards, item0, menu)
     controls = [START] + [RUN] * ticks
     text, out = flostep.run(sym, prog, controls, plan=[{"*": 1}])
     for k, (control, rlog, flog, robs, fobs, env) in enumerate(out):
@@ -125,6 +126,10 @@ def obligations(tier):
     else:
         cfgs = [(2, 2, True, 4, False), (3, 1, True, 3, True), (3, 1, False, 4, True)]
         forests = {2: [[-1, 0], [-1, -1]], 3: flostep.all_forests(3)}
+    if tier == "quick":   # three nested frames (two shared ancestors: renter/rexit order) with a reduced menu
+        small = ["none", "go-x", "inc-recur", "go-cnt"]
+        out.append(Ob("diff/N3-chain-smallmenu-t2", h, dict(n=3, parent=[-1, 0, 1], items_per_frame=1, guards=False, ticks=2, menu=small),
+                      budget=900, covers=["transition"], bounds=dict(frames=3, forest=[-1, 0, 1], menu=small, ticks=2, inputs="[0,1]")))
     for (n, ipf, guards, ticks, shard_item0) in cfgs:
         for parent in forests[n]:
             for item0 in (range(len(MENU)) if shard_item0 else [None]):
